@@ -81,6 +81,8 @@ class C02(Check):
                 if sp:
                     c['spell'] = sp
             cases.append(c)
+        for (f, cols) in fml.arith_boundary_cases():
+            cases.append({'f': f, 'n': len(cols[0]), 'nv': 2, 'cols': cols, 'times': list(range(len(cols[0])))})
         # signals whose names read like values (inf, nan) next to infinite literals: node names must not be confused
         INF = ('const', math.inf)
         X0 = ('var', 0)
